@@ -168,3 +168,77 @@ extern "C" void selftest_export() {
   Paths64 q = ConvertCPathsToPathsT(arr);
   out_i64(q.size()); out_i64(q[1][0].x);
 }
+
+// C17.b polytree layout: [array_len, top-level count, then per node: N, child count, N x (x,y[,z]), children...]; every write inside
+// the allocation (CBMC bounds checks), array_len == number of elements written
+extern "C" void harness_polytree_layout() {
+  PolyTree64 tree;
+  Path64 a, b, c;
+  a.push_back(MKPT(nondet_i64(), nondet_i64())); a.push_back(MKPT(nondet_i64(), nondet_i64())); a.push_back(MKPT(nondet_i64(), nondet_i64()));
+  b.push_back(MKPT(nondet_i64(), nondet_i64())); b.push_back(MKPT(nondet_i64(), nondet_i64())); b.push_back(MKPT(nondet_i64(), nondet_i64()));
+  c.push_back(MKPT(nondet_i64(), nondet_i64())); c.push_back(MKPT(nondet_i64(), nondet_i64())); c.push_back(MKPT(nondet_i64(), nondet_i64())); c.push_back(MKPT(nondet_i64(), nondet_i64()));
+  PolyPath64* na = tree.AddChild(a); na->AddChild(b); tree.AddChild(c);      // tree: { a { b }, c }
+  int64_t* arr = CreateCPolyTree64(tree);
+  const int64_t len = 2 + (2 + 3 * DIM) + (2 + 3 * DIM) + (2 + 4 * DIM);
+  VA(arr != nullptr); ASSUME(arr != nullptr);
+  VA(arr[0] == len); VA(arr[1] == 2);
+  int64_t* v = arr + 2;
+  VA(v[0] == 3 && v[1] == 1 && v[2] == a[0].x && v[3] == a[0].y && v[2 + 2 * DIM] == a[2].x && v[3 + 2 * DIM] == a[2].y);   // node a
+  v += 2 + 3 * DIM;
+  VA(v[0] == 3 && v[1] == 0 && v[2] == b[0].x && v[3] == b[0].y);                                                              // its child b
+  v += 2 + 3 * DIM;
+  VA(v[0] == 4 && v[1] == 0 && v[2] == c[0].x && v[3] == c[0].y && v[2 + 3 * DIM] == c[3].x && v[3 + 3 * DIM] == c[3].y);     // node c
+#ifdef USINGZ
+  VA(arr[2 + 2 + 2] == a[0].z);
+#endif
+  VA(v + 2 + 4 * DIM == arr + len);
+  PolyTree64 empty; VA(CreateCPolyTree64(empty) == nullptr);
+  verif_reach();
+}
+
+// C17.c RectClip64 / RectClipLines64 exports: rectangle and paths forwarded unchanged, result marshalled; empty rectangle / null paths rejected
+struct RRec { int n; Rect64 rect; int64_t in_x; size_t in_n; int64_t out_x; };
+static RRec RR;
+extern "C" __attribute__((noinline)) void stub_rc_execute(Paths64* out, class RectClip64* self, const Paths64& paths) {
+  new (out) Paths64(); RR.n++; RR.rect = self->rect_; RR.in_n = paths.size(); RR.in_x = paths.size() && paths[0].size() ? paths[0][0].x : -1;
+  out->push_back(Path64{MKPT(RR.out_x, 7), MKPT(1, 2), MKPT(3, 4)});
+}
+extern "C" __attribute__((noinline)) void stub_rcl_execute(Paths64* out, class RectClipLines64* self, const Paths64& paths) { stub_rc_execute(out, self, paths); }
+extern "C" void harness_rectclip64_export() {
+  int64_t xs = nondet_i64(); ASSUME(xs != -1);
+  CRect64 r; r.left = nondet_i64(); r.top = nondet_i64(); r.right = nondet_i64(); r.bottom = nondet_i64();
+  RR.out_x = nondet_i64(); RR.n = 0;
+  int64_t* in = mk_cpaths1(xs);
+  bool lines = nondet_bool();
+  int64_t* out = lines ? Clipper2Lib::RectClipLines64(r, in) : Clipper2Lib::RectClip64(r, in);
+  bool empty = r.right <= r.left || r.bottom <= r.top;
+  if (empty) { VA(out == nullptr); VA(RR.n == 0); }
+  else {
+    VA(RR.n == 1 && RR.in_n == 1 && RR.in_x == xs);
+    VA(RR.rect.left == r.left && RR.rect.top == r.top && RR.rect.right == r.right && RR.rect.bottom == r.bottom);
+    VA(out && out[1] == 1 && out[2] == 3 && out[4] == RR.out_x);
+  }
+  VA(Clipper2Lib::RectClip64(r, nullptr) == nullptr);
+  verif_reach();
+}
+
+// C17.c RectClipD / RectClipLinesD: precision is forwarded on EVERY call (two calls with different precisions in one process)
+static const double P10x[5] = {1e0, 1e1, 1e2, 1e3, 1e4};
+extern "C" __attribute__((noinline)) double stub_pow(double base, double e) { int k = (int)e; VA(base == 10.0 && (double)k == e && k >= 0 && k <= 4); ASSUME(k >= 0 && k <= 4); return P10x[k]; }
+static double* mk_cpathsd1(double x) { PathsD p(1); p[0].push_back(PointD(x, 0.25)); p[0].push_back(PointD(1.0, 1.0)); p[0].push_back(PointD(0.0, 1.0)); return CreateCPathsDFromPathsD(p); }
+extern "C" void harness_rectclipd_export() {
+  CRectD r; r.left = -10.0; r.top = -10.0; r.right = 10.0; r.bottom = 10.0;
+  const double x = 1.2345;
+  double* in = mk_cpathsd1(x);
+  int p1 = nd_int(0, 4), p2 = nd_int(0, 4);
+  bool lines = nondet_bool();
+  RR.out_x = 12345;
+  RR.n = 0; double* o1 = lines ? Clipper2Lib::RectClipLinesD(r, in, p1) : Clipper2Lib::RectClipD(r, in, p1);
+  VA(RR.n == 1 && RR.in_x == (int64_t)std::round(x * P10x[p1]) && RR.rect.right == (int64_t)std::round(10.0 * P10x[p1]));
+  VA(o1 && o1[4] == 12345.0 * (1 / P10x[p1]));
+  RR.n = 0; double* o2 = lines ? Clipper2Lib::RectClipLinesD(r, in, p2) : Clipper2Lib::RectClipD(r, in, p2);
+  VA(RR.n == 1 && RR.in_x == (int64_t)std::round(x * P10x[p2]) && RR.rect.right == (int64_t)std::round(10.0 * P10x[p2]));   // second call: its own precision
+  VA(o2 && o2[4] == 12345.0 * (1 / P10x[p2]));
+  VA(Clipper2Lib::RectClipD(r, in, nd_int(9, 100)) == nullptr);
+  verif_reach();
+}
